@@ -392,3 +392,209 @@ def is_complement_of(e: ast.expr, universe_pred, removed_pred) -> Optional[bool]
             if nm in ('isin', 'in1d') and len(c.args) >= 2:
                 return bool(universe_pred(e.value) and universe_pred(c.args[0]) and removed_pred(c.args[1]))
     return None
+
+
+def fwd_same_name(ctx, obs: Obligations, q: str, names: Sequence[str], rule='FWD',
+                  callees: Optional[Sequence[str]] = None, res: Optional[FuncResult] = None) -> int:
+    """FWD (wrapper): at every call in q to a repo function that has a parameter named like one of `names`
+    (and q has that parameter too), the parameter is passed on in that slot."""
+    prog = ctx.prog
+    f = prog.func(q)
+    r = res or ctx.dep.result(q)
+    n = 0
+    for c in r.calls:
+        if len(c.callees) != 1:
+            continue
+        g = c.callees[0]
+        if callees is not None and g not in callees:
+            continue
+        gi = prog.functions[g]
+        if any(k in ('*', '**') for k, _ in c.args):
+            continue
+        b = bound_args(prog, g, c)
+        for p in names:
+            if p not in f.params or p not in gi.params:
+                continue
+            n += 1
+            con = f'{p} is passed on to {g}'
+            if p in b and depends_on_param(b[p][1], p):
+                obs.ok(rule, q, con, '', where(prog, f, c.node))
+            else:
+                got = f'`{norm(b[p][0])}`' if p in b and b[p][0] is not None else 'nothing (callee default)'
+                obs.bad(rule, q, con,
+                        f'`{norm(c.node)[:100]}` passes {got} for parameter `{p}` of {g.split(".")[-1]}: the caller\'s '
+                        f'`{p}` is silently dropped', where(prog, f, c.node))
+    return n
+
+
+class Inliner:
+    """expression inlining through single reaching definitions ("what is this value as a function of the sources")"""
+
+    def __init__(self, res: FuncResult, source_call_leaf: Optional[str] = None, source_params: Sequence[str] = ()):
+        self.res = res
+        self.src_leaf = source_call_leaf
+        self.src_params = list(source_params)
+        self.active = set()
+
+    def inline(self, e: ast.expr, depth=0) -> ast.expr:
+        if depth > 40:
+            return ast.Name(id='DEEP', ctx=ast.Load())
+        if isinstance(e, ast.Name) and isinstance(e.ctx, ast.Load):
+            ids = sorted(self.res.load_defs.get(id(e), ()))
+            if not ids:
+                return ast.Name(id=e.id, ctx=ast.Load())
+            alts = [self._def_expr(self.res.defs[i], e.id, depth) for i in ids]
+            if len(alts) == 1:
+                return alts[0]
+            alts.sort(key=lambda a: ast.dump(a))
+            return ast.Call(func=ast.Name(id='PHI', ctx=ast.Load()), args=alts, keywords=[])
+        new_fields = {}
+        for fld, val in ast.iter_fields(e):
+            if isinstance(val, ast.expr):
+                new_fields[fld] = self.inline(val, depth + 1)
+            elif isinstance(val, list):
+                new_fields[fld] = [self.inline(v, depth + 1) if isinstance(v, ast.expr)
+                                   else (self._inline_kw(v, depth) if isinstance(v, ast.keyword)
+                                         else (self._inline_comp(v, depth) if isinstance(v, ast.comprehension) else v))
+                                   for v in val]
+            else:
+                new_fields[fld] = val
+        return type(e)(**new_fields)
+
+    def _inline_comp(self, g: ast.comprehension, depth):
+        return ast.comprehension(target=g.target, iter=self.inline(g.iter, depth + 1),
+                                 ifs=[self.inline(x, depth + 1) for x in g.ifs], is_async=g.is_async)
+
+    def _inline_kw(self, kw: ast.keyword, depth):
+        return ast.keyword(arg=kw.arg, value=self.inline(kw.value, depth + 1))
+
+    def _def_expr(self, d, var, depth) -> ast.expr:
+        key = d.did
+        if key in self.active:
+            return ast.Name(id='CYCLE', ctx=ast.Load())
+        self.active.add(key)
+        try:
+            if d.kind == 'param':
+                if var in self.src_params:
+                    return ast.Name(id='SRC%d' % self.src_params.index(var), ctx=ast.Load())
+                return ast.Name(id='PARAM_' + var, ctx=ast.Load())
+            node = d.node
+            if d.kind == 'assign' and isinstance(node, (ast.Assign, ast.AnnAssign)):
+                tgt = node.targets[0] if isinstance(node, ast.Assign) else node.target
+                if isinstance(tgt, (ast.Tuple, ast.List)):
+                    k = [i for i, t in enumerate(tgt.elts) if isinstance(t, ast.Name) and t.id == var]
+                    if not k:
+                        return ast.Name(id='OPAQUE', ctx=ast.Load())
+                    rhs = node.value
+                    if isinstance(rhs, ast.Call) and self.src_leaf and _leaf_name(rhs.func) == self.src_leaf:
+                        return ast.Name(id='SRC%d' % k[0], ctx=ast.Load())
+                    if isinstance(rhs, (ast.Tuple, ast.List)) and len(rhs.elts) == len(tgt.elts):
+                        return self.inline(rhs.elts[k[0]], depth + 1)
+                    return ast.Subscript(value=self.inline(rhs, depth + 1), slice=ast.Constant(value=k[0]), ctx=ast.Load())
+                return self.inline(node.value, depth + 1)
+            if d.kind == 'aug' and isinstance(node, ast.AugAssign):
+                prev = sorted(self.res.aug_prev.get(d.did, ()))
+                alts = [self._def_expr(self.res.defs[i], var, depth + 1) for i in prev]
+                old = alts[0] if len(alts) == 1 else ast.Call(func=ast.Name(id='PHI', ctx=ast.Load()), args=alts, keywords=[])
+                return ast.BinOp(left=old, op=node.op, right=self.inline(node.value, depth + 1))
+            if d.kind == 'for' and isinstance(node, ast.For):
+                return ast.Call(func=ast.Name(id='ELEM', ctx=ast.Load()), args=[self.inline(node.iter, depth + 1)], keywords=[])
+            return ast.Name(id='OPAQUE_' + d.kind, ctx=ast.Load())
+        finally:
+            self.active.discard(key)
+
+
+def _leaf_name(fn):
+    if isinstance(fn, ast.Attribute):
+        return fn.attr
+    if isinstance(fn, ast.Name):
+        return fn.id
+    return ''
+
+
+def mentions(e: ast.AST, name: str) -> bool:
+    return any(isinstance(n, ast.Name) and n.id == name for n in ast.walk(e))
+
+
+def rename(e: ast.expr, mapping: Dict[str, str]) -> ast.expr:
+    import copy
+    e2 = copy.deepcopy(e)
+    for n in ast.walk(e2):
+        if isinstance(n, ast.Name) and n.id in mapping:
+            n.id = mapping[n.id]
+    return e2
+
+
+SHARED_SIZE_FUNCS = {'_get_n_from_reduced_vectors', '_get_n_from_length'}
+
+
+class _SharedSizes(ast.NodeTransformer):
+    """sizes of the axis both operands share (pairs / conditions) are not operand-specific:
+    SRCk.shape[1], SRCk[i].shape, len(SRCk[i]), _get_n_from_*(SRCk) -> N_SHARED"""
+
+    @staticmethod
+    def _is_src(e):
+        return isinstance(e, ast.Name) and e.id in ('SRC0', 'SRC1')
+
+    def visit_Subscript(self, node):
+        # axis 1 is the axis the two operands share (contract: (A, P) and (B, P)); row-wise operations keep it
+        if isinstance(node.value, ast.Attribute) and node.value.attr == 'shape' \
+                and isinstance(node.slice, ast.Constant) and node.slice.value in (1, -1):
+            return ast.Name(id='N_SHARED', ctx=ast.Load())
+        return self.generic_visit(node)
+
+    def visit_Attribute(self, node):
+        if node.attr in ('shape', 'size') and isinstance(node.value, ast.Subscript) and self._is_src(node.value.value) \
+                and isinstance(node.value.slice, ast.Constant) and isinstance(node.value.slice.value, int):
+            return ast.Name(id='N_SHARED', ctx=ast.Load())
+        return self.generic_visit(node)
+
+    def visit_Call(self, node):
+        nm = _leaf_name(node.func)
+        if nm in SHARED_SIZE_FUNCS and node.args and self._is_src(node.args[0]):
+            return ast.Name(id='N_SHARED', ctx=ast.Load())
+        if nm == 'len' and node.args and isinstance(node.args[0], ast.Subscript) and self._is_src(node.args[0].value):
+            return ast.Name(id='N_SHARED', ctx=ast.Load())
+        return self.generic_visit(node)
+
+
+def sym_operands(ctx, obs: Obligations, q: str, rule='SYM', source_leaf: Optional[str] = None,
+                 source_params: Sequence[str] = (), res: Optional[FuncResult] = None) -> int:
+    """SYM: the multiset of expressions computed from operand 1 alone equals, after renaming, the multiset of
+    expressions computed from operand 2 alone (plain assignments only)."""
+    prog = ctx.prog
+    f = prog.func(q)
+    r = res or ctx.dep.result(q)
+    inl = Inliner(r, source_leaf, source_params)
+    side0, side1 = [], []
+    for s in ast.walk(f.node):
+        if not isinstance(s, ast.Assign):
+            continue
+        # skip nested function bodies
+        rhs = s.value
+        if isinstance(rhs, ast.Call) and source_leaf and _leaf_name(rhs.func) == source_leaf:
+            continue
+        e = ast.fix_missing_locations(_SharedSizes().visit(inl.inline(rhs)))
+        m0, m1 = mentions(e, 'SRC0'), mentions(e, 'SRC1')
+        tgt = s.targets[0]
+        if isinstance(tgt, (ast.Tuple, ast.List)):
+            continue
+        if m0 and not m1:
+            side0.append((ast.dump(rename(e, {'SRC0': 'SRC'})), s))
+        elif m1 and not m0:
+            side1.append((ast.dump(rename(e, {'SRC1': 'SRC'})), s))
+    d0 = sorted(x for x, _ in side0)
+    d1 = sorted(x for x, _ in side1)
+    n = len(side0) + len(side1)
+    if d0 == d1:
+        obs.ok(rule, q, 'operand 1 and operand 2 are transformed identically',
+               f'{len(side0)} single-operand expressions on each side match after renaming', where(prog, f, f.node))
+    else:
+        only0 = [s for x, s in side0 if x not in d1 or d0.count(x) > d1.count(x)]
+        only1 = [s for x, s in side1 if x not in d0 or d1.count(x) > d0.count(x)]
+        odd = (only0 + only1)[0]
+        obs.bad(rule, q, 'operand 1 and operand 2 are transformed identically',
+                f'expressions without a mirror image: operand 1: {[norm(s)[:70] for s in only0]}; operand 2: '
+                f'{[norm(s)[:70] for s in only1]} - a symmetric measure must treat both RDM stacks alike',
+                where(prog, f, odd))
+    return n
